@@ -4,6 +4,8 @@ go 1.26.4
 
 require (
 	github.com/anishathalye/porcupine v1.3.0
+	github.com/google/uuid v1.6.0
+	github.com/redis/go-redis/v9 v9.8.0
 	github.com/sharedcode/sop v0.0.0
 	github.com/sharedcode/sop/adapters/redis v0.0.0
 	github.com/sharedcode/sop/ai v0.0.0
@@ -21,12 +23,10 @@ require (
 	github.com/gocql/gocql v1.7.0 // indirect
 	github.com/golang/snappy v1.0.0 // indirect
 	github.com/google/cel-go v0.25.0 // indirect
-	github.com/google/uuid v1.6.0 // indirect
 	github.com/hailocab/go-hostpool v0.0.0-20160125115350-e80d13ce29ed // indirect
 	github.com/klauspost/cpuid/v2 v2.3.0 // indirect
 	github.com/klauspost/reedsolomon v1.12.4 // indirect
 	github.com/ncw/directio v1.0.5 // indirect
-	github.com/redis/go-redis/v9 v9.8.0 // indirect
 	github.com/sethvargo/go-retry v0.3.0 // indirect
 	github.com/sharedcode/sop/adapters/cassandra v0.0.0-00010101000000-000000000000 // indirect
 	github.com/sharedcode/sop/incfs v0.0.0-00010101000000-000000000000 // indirect
